@@ -27,3 +27,10 @@ uint32_t _ZN9QtPrivate14compareStringsE11QStringViewS0_N2Qt15CaseSensitivityE(ui
 uint8_t _ZN9QtPrivate12equalStringsE11QStringViewS0_(uint64_t na, char *a, uint64_t nb, char *b) { if (na != nb) return 0; if (na == 0) return 1; return vpl_c05_eq((uint16_t*)a, (uint16_t*)b, na); }
 uint8_t _ZeqRK7QStringS1_(char *a, char *b) { QAD *x = *(QAD**)a, *y = *(QAD**)b; if (x->f1 != y->f1) return 0; if (x->f1 == 0) return 1; return vpl_c05_eq(qs_chars(x), qs_chars(y), x->f1); }
 #endif
+/* libstdc++ glue: std::__find_if<const QString*, _Iter_equals_val<const QString>>(first, last, pred) as used by
+   QList<QString>::contains.  The header version computes the trip count as (uintptr_t)last - (uintptr_t)first, which cbmc
+   cannot fold (pointer->integer casts), so every contains() would be explored to the unwind bound.  Same contract, written
+   with pointer comparison; the predicate is `*it == value`, i.e. operator==(const QString&, const QString&). */
+char* _ZSt9__find_ifIPK7QStringN9__gnu_cxx5__ops16_Iter_equals_valIS1_EEET_S7_S7_T0_St26random_access_iterator_tag(char *first, char *last, char *value) {
+  for (char *p = first; p != last; p += sizeof(char*)) { if (_ZeqRK7QStringS1_(p, value)) return p; }
+  return last; }
